@@ -71,6 +71,8 @@ BASE_POOL = [
     # LAWS only)
     ('text', 'straße'), ('text', 'STRASSE'), ('text', 'ﬁn'), ('text', 'FIN'),
     ('bool', True), ('bool', False), ('blank', None),
+    # truth values as numpy hands them out (comparisons of numpy numbers)
+    ('npbool', True), ('npbool', False),
 ]
 MODES = ['typed', 'native', 'cells', 'literals', 'calls']
 
@@ -98,7 +100,8 @@ def expanding(t):
 
 
 def cls(kind):
-    return {'int': 'number', 'float': 'number'}.get(kind, kind)
+    return {'int': 'number', 'float': 'number',
+            'npbool': 'bool'}.get(kind, kind)
 
 
 def pool_for(ctx):
@@ -122,7 +125,7 @@ def pool_for(ctx):
 
 
 def lit_of(kind, v):
-    if kind in ('blank', 'date'):
+    if kind in ('blank', 'date', 'npbool'):
         return None
     if kind == 'int' and abs(v) > 2 ** 53:
         return None       # a formula literal is a double
@@ -134,6 +137,7 @@ def lit_of(kind, v):
 
 
 def run(ctx):
+    import numpy
     from xlcalculator.xlfunctions import xl, func_xltypes as T
     F = xl.FUNCTIONS
     pool = pool_for(ctx)
@@ -156,6 +160,10 @@ def run(ctx):
         a, b = pool[i], pool[j]
         for mode in ('typed', 'native'):
             x, y = a[1], b[1]
+            if a[0] == 'npbool':
+                x = numpy.bool_(x)
+            if b[0] == 'npbool':
+                y = numpy.bool_(y)
             if mode == 'typed':
                 x = T.ExcelType.cast_from_native(x)
                 y = T.ExcelType.cast_from_native(y)
@@ -178,6 +186,9 @@ def run(ctx):
                 if kind == 'date' or (kind == 'text' and v == ''):
                     inputs[addr] = 0
                     post['Sheet1!' + addr] = v
+                elif kind == 'npbool':
+                    inputs[addr] = 0
+                    post['Sheet1!' + addr] = numpy.bool_(v)
                 else:
                     inputs[addr] = v
             for op in OPS:
@@ -274,7 +285,7 @@ def offline(merged, ctx):
             vals.append((k, eval(r, {'datetime': datetime})))
         elif k == 'blank':
             vals.append((k, None))
-        elif k == 'bool':
+        elif k in ('bool', 'npbool'):
             vals.append((k, r == 'True'))
         elif k == 'text':
             vals.append((k, eval(r)))
